@@ -232,6 +232,15 @@ class Gen:
             self.note("err-stmt")
             return r.choice(["(print (id x999))", "(if (int 1) (block (print (int 1))))", "(call (int 3) (int 4))", "(eq = (int 1) (int 2))",
                              "(decl %s (int 1))" % (r.choice(list(self.scopes[-1])) if self.scopes[-1] else "x998")])
+        if k == 18 and self.feat["refs"] and self.feat["cbs"] and (not ints or r.chance(1, 3)):
+            # a reference bound to a TEMPORARY (a callback's by-value result), then copied and the copy changed: the reference must keep its value
+            self.note("ref-to-temporary")
+            self.ncb += 1
+            n = self.fresh()
+            self.declare(n, "int")
+            y = self.fresh_declared("int")
+            return "(eq = (ref %s) (cb %d %s)) (decl %s (id %s)) (eq += (id %s) (int 1)) (print (id %s)) (print (id %s))" % (
+                n, r.below(4), self.int_expr(2), y, n, y, n, y)
         if k == 18 and self.feat["refs"] and ints:
             self.note("ref")
             n = self.fresh()
